@@ -167,8 +167,7 @@ def toInt : F64 → Option Int
     else
       let v := m * 2 ^ e.toNat
       if n then (if v > 2 ^ 63 then none else some (-(v : Int)))
-      else if v > 2 ^ 63 then none
-      else if v = 2 ^ 63 then some (-(2 ^ 63 : Int))   -- int(float64(2^63)) on amd64
+      else if v ≥ 2 ^ 63 then none   -- 2^63 itself is out of range (before FX27 it wrapped to −2^63 on amd64)
       else some v
 
 end F64
